@@ -668,9 +668,19 @@ impl ExecutableContent for SendParameters {
                 let global_clone = datamodel.global_s().clone();
                 let send_id_clone = send_id.clone();
                 let target_str = target_guard.to_string();
+                // Identifies this send among all pending sends with the same send id.
+                let serial = PLATFORM_ID_COUNTER.fetch_add(1, Ordering::Relaxed);
                 let tg = fsm.schedule(delay_ms, move || {
                     if let Some(sid) = &send_id_clone {
-                        global_clone.lock().unwrap().delayed_send.remove(sid);
+                        // Forget the guard of this send only, other pending sends with the
+                        // same id stay scheduled.
+                        let mut global = global_clone.lock().unwrap();
+                        if let Some(guards) = global.delayed_send.get_mut(sid) {
+                            guards.retain(|(s, _)| *s != serial);
+                            if guards.is_empty() {
+                                global.delayed_send.remove(sid);
+                            }
+                        }
                     }
                     iopc.lock()
                         .unwrap()
@@ -683,7 +693,9 @@ impl ExecutableContent for SendParameters {
                             .lock()
                             .unwrap()
                             .delayed_send
-                            .insert(sid.clone(), g);
+                            .entry(sid.clone())
+                            .or_default()
+                            .push((serial, g));
                     } else {
                         g.ignore();
                     }
